@@ -40,9 +40,13 @@ def roundtrip(acc, infos, ops, named, inp):
     acc.announce("c07", inp)
     monitors.drain()
     try:
-        text, sm = norm.decompile_ssbs(infos, ops, named)
+        # the decompiler gets the caller's own objects: the round trip is judged against the routine set as it is afterwards, too
+        text, sm = norm.decompile_ssbs(infos, ops, named, deep=False)
     except Exception as e:
         acc.violation(gsig("ssbs-decompile-raised", type(e).__name__, str(e)[:40]), {"error": str(e)[:200]}, inp)
+        return
+    if half_tile(norm.positional(ops)) != before or norm.infos(infos, named) != binfo:
+        acc.violation(gsig("routine-set-changed-by-decompiling-it"), {"note": "the ops handed to the decompiler differ after the call"}, inp)
         return
     from explorerscript.error import ParseError, SsbCompilerError
     try:
